@@ -241,6 +241,16 @@ def observe_dump(c):
         o['text2'] = dumps(obj)
     except Exception as e:  # noqa
         o['text2'] = 'EXC ' + repr(e)
+    # the same object through dump_function into an open stream
+    try:
+        key = ('stream', c['model'])
+        if key not in _dfn:
+            _dfn[key] = y.dump_function(*b.registered)
+        buf = io.StringIO()
+        _dfn[key](obj, buf)
+        o['text_stream'] = buf.getvalue()
+    except Exception as e:  # noqa
+        o['text_stream'] = 'EXC ' + repr(e)
     o['value'] = before_abs
     return o, obj, b
 
@@ -294,6 +304,10 @@ def rel_c06(c):
     if o['text2'] != text:
         out.append(('impl', 'second dump differs: %r vs %r' % (
             o['text2'], text), fid))
+    if o['text_stream'] != text:
+        out.append(('impl', 'dump_function wrote %r into a stream, '
+                    'dumps_function returns %r' % (o['text_stream'], text),
+                    fid))
     # sweeten calls (C10, dumping side)
     sl = [[e[0], e[1]] for e in (c['dlog'] if isinstance(c['dlog'], list)
                                  else [])]
@@ -316,7 +330,8 @@ def rel_c05(c):
     rtype = c['dt'] in loadreplay.ctx()['models'][c['model']]['rtypes']
     if not rtype:
         return out, 0
-    if loadreplay.ctx()['models'][c['model']]['family'] == 'gen' and \
+    if loadreplay.ctx()['models'][c['model']]['family'] in ('gen',
+                                                            'dumpinv') and \
             not c['inv']['RoundTripHolds'] and c['dex'] == '':
         # machine-generated hierarchies are often ambiguous (a base-class
         # object whose text also matches a subclass with optional extras):
